@@ -84,7 +84,10 @@ func run() error {
 		path := wd
 		if len(args) > 0 {
 			name := args[0]
-			if filepathext.IsExtOnly(name) {
+			// An existing directory is a directory, whatever its name looks like (".config")
+			fi, statErr := os.Stat(filepathext.SmartJoin(wd, name))
+			isDir := statErr == nil && fi.IsDir()
+			if !isDir && filepathext.IsExtOnly(name) {
 				name = filepathext.SmartJoin(filepath.Dir(name), "Taskfile"+filepath.Ext(name))
 			}
 			path = filepathext.SmartJoin(wd, name)
